@@ -246,10 +246,13 @@ impl SwiftField for Field56Intermediary {
                 let field = Field56D::parse(value)?;
                 Ok(Field56Intermediary::D(field))
             }
-            _ => {
-                // No variant specified, fall back to default parse behavior
+            None => {
+                // No option letter given: the option is inferred from the content
                 Self::parse(value)
             }
+            Some(other) => Err(ParseError::InvalidFormat {
+                message: format!("Field 56 has no option {}", other),
+            }),
         }
     }
 
@@ -307,10 +310,13 @@ impl SwiftField for Field56IntermediaryAD {
                 let field = Field56D::parse(value)?;
                 Ok(Field56IntermediaryAD::D(field))
             }
-            _ => {
-                // No variant specified, fall back to default parse behavior
+            None => {
+                // No option letter given: the option is inferred from the content
                 Self::parse(value)
             }
+            Some(other) => Err(ParseError::InvalidFormat {
+                message: format!("Field 56 has no option {}", other),
+            }),
         }
     }
 
